@@ -13,6 +13,9 @@
 #ifndef VC_AES_MAXIN
 #define VC_AES_MAXIN 40          /* 0, 1 or 2 complete blocks + the padded one */
 #endif
+#ifndef VC_AES_MININ
+#define VC_AES_MININ (-0x7fffffff - 1)       /* the three padEncrypt units split the length range by the number of complete blocks */
+#endif
 #define VC_ANB 4
 extern unsigned g_ec;                         /* block-function calls so far */
 extern size_t g_erk_o[VC_ANB], g_erk_f[VC_ANB], g_ein_o[VC_ANB], g_ein_f[VC_ANB], g_eout_o[VC_ANB], g_eout_f[VC_ANB];   /* key schedule, input and output buffer of call k: (object, offset) */
@@ -50,10 +53,18 @@ VC_BLOCK_FN(rijndaelDecrypt_a);
 #define VC_ECALL3(j)   VC_ECALL_OK(3, j)
 #define VC_EWHERE(k)   (VC_PTR_IS(g_erk_o, g_erk_f, k, key->rk) && g_enr[k] == key->Nr && VC_PTR_IS(g_eout_o, g_eout_f, k, outBuffer + 16 * (k)))
 #define VC_EACTIVE     (key->direction != DIR_DECRYPT && inputOctets > 0)
+/* the output buffer has exactly the ciphertext length.  A unit whose length range has a single block count states it as the constant it then is
+   (a symbolic-size output object costs 12 M variables / 250 s even for one block); for lengths <= 0 nothing may be written (frame) */
+#ifdef VC_AES_OUTSZ
+_Static_assert(VC_AES_MAXIN / 16 == (VC_AES_MININ > 0 ? VC_AES_MININ : 1) / 16 && VC_AES_OUTSZ == 16 * (VC_AES_MAXIN / 16 + 1), "constant output size only for a single block count");
+#define VC_EOUTSZ      ((size_t)VC_AES_OUTSZ)
+#else
+#define VC_EOUTSZ      (inputOctets > 0 ? 16 * (size_t)VC_ENB : 0)
+#endif
 int padEncrypt(cipherInstance *cipher, keyInstance *key, BYTE *input, int inputOctets, BYTE *outBuffer)
-__CPROVER_requires(inputOctets <= VC_AES_MAXIN && g_ec == 0)
+__CPROVER_requires(inputOctets >= VC_AES_MININ && inputOctets <= VC_AES_MAXIN && g_ec == 0)
 __CPROVER_requires(__CPROVER_is_fresh(cipher, sizeof(cipherInstance)) && __CPROVER_is_fresh(key, sizeof(keyInstance)) && cipher->mode == MODE_CBC)
-__CPROVER_requires(__CPROVER_is_fresh(input, inputOctets > 0 ? (size_t)inputOctets : 0) && __CPROVER_is_fresh(outBuffer, inputOctets > 0 ? 16 * (size_t)VC_ENB : 0))
+__CPROVER_requires(__CPROVER_is_fresh(input, inputOctets > 0 ? (size_t)inputOctets : 0) && __CPROVER_is_fresh(outBuffer, VC_EOUTSZ))
 __CPROVER_assigns(VC_EACTIVE: __CPROVER_object_upto(outBuffer, 16 * (size_t)VC_ENB))
 VC_ASSIGNS(g_ec, __CPROVER_object_whole(g_erk_o), __CPROVER_object_whole(g_erk_f), __CPROVER_object_whole(g_ein_o), __CPROVER_object_whole(g_ein_f), __CPROVER_object_whole(g_eout_o), __CPROVER_object_whole(g_eout_f), __CPROVER_object_whole(g_enr), __CPROVER_object_whole(g_ei))
 /* a decryption key is refused, an empty input is "nothing to do" (return 0): no block call, nothing written */
